@@ -97,11 +97,25 @@ class _Model(DSOLModel):
     def construct_model(self):
         self.ctl.on_construct()
 
-    def h(self, k):
+    def h(self, k, tag=None):
         self.ctl.on_handler(k)
 
     def initial_hook(self):
         self.ctl.on_initial_method()
+
+
+_UEC = None
+
+
+def user_event_class():
+    global _UEC
+    if _UEC is None:
+        from pydsol.core.simevent import SimEvent
+
+        class TaggedSimEvent(SimEvent):
+            """a user model may define its own event class"""
+        _UEC = TaggedSimEvent
+    return _UEC
 
 
 class _Listener(EventListener):
@@ -151,7 +165,11 @@ class SimCtl:
         self.end_t, self.warm_t = end_t, warm_t
         self.sim = self.conc.sim()
         self.strategy = strategy
-        self.sim.set_error_strategy(STRATEGY[strategy])
+        SimCtl._n = getattr(SimCtl, "_n", 0) + 1
+        if SimCtl._n % 2:
+            self.sim.set_error_strategy(STRATEGY[strategy])
+        else:       # the optional log-level argument must not change which strategy is in force
+            self.sim.set_error_strategy(STRATEGY[strategy], logging.ERROR)
         self.model = (model_factory or _Model)(self.sim, self)
         self.use_initial_method = bool(init_ops) and len(init_ops) >= 2 and hasattr(self.model, "initial_hook")
         if self.use_initial_method:
@@ -196,12 +214,19 @@ class SimCtl:
                     res.append(-1); info.append("cancel")
                     continue
                 rank = self.next_rank + 1
-                if k == "now":
-                    e = sim.schedule_event_now(self.model, "h", p, k=rank)
+                kw = {"k": rank}
+                if rank % 2 == 0:
+                    kw["tag"] = "load 80% {x} %s"        # event arguments are arbitrary user data
+                if rank % 3 == 2 and k in ("now", "rel", "abs"):
+                    # a user subclass of SimEvent handed to schedule_event(): ids stay unique and increasing across event classes
+                    tt = sim.simulator_time if k == "now" else (sim.simulator_time + c.t(a, self.alt) if k == "rel" else c.at(a, self.alt))
+                    e = sim.schedule_event(user_event_class()(tt, self.model, "h", p, **kw))
+                elif k == "now":
+                    e = sim.schedule_event_now(self.model, "h", p, **kw)
                 elif k == "rel":
-                    e = sim.schedule_event_rel(c.t(a, self.alt), self.model, "h", p, k=rank)
+                    e = sim.schedule_event_rel(c.t(a, self.alt), self.model, "h", p, **kw)
                 elif k == "abs":
-                    e = sim.schedule_event_abs(c.at(a, self.alt), self.model, "h", p, k=rank)
+                    e = sim.schedule_event_abs(c.at(a, self.alt), self.model, "h", p, **kw)
                 elif k == "nan_abs":
                     e = sim.schedule_event_abs(c.nan(), self.model, "h", p, k=rank)
                 elif k == "nan_rel":
@@ -213,7 +238,10 @@ class SimCtl:
                     e = sim.schedule_event_rel(tiny, self.model, "h", p, k=rank)
                 elif k == "strat":
                     self.strategy = "pause" if a == 1 else ("continue", "warn_continue")[rank % 2]
-                    sim.set_error_strategy(STRATEGY[self.strategy])
+                    if rank % 3 == 0:
+                        sim.set_error_strategy(STRATEGY[self.strategy], logging.CRITICAL)
+                    else:
+                        sim.set_error_strategy(STRATEGY[self.strategy])
                     res.append(0); info.append("strat")
                     continue
                 elif k == "endrep":       # the handler ends the replication
